@@ -386,7 +386,7 @@ class RiscvParser(Parser):
                     for val in line_parsed.get("values"):
                         self.state.memory.write_byte(
                             address_counter,
-                            fixedint.UInt8(int(val, base=0)),
+                            fixedint.UInt8(self._to_int(val, line_number, line)),
                             directly_write_to_lower_memory=True,
                         )
                         address_counter += 1
@@ -397,7 +397,7 @@ class RiscvParser(Parser):
                     for val in line_parsed.get("values"):
                         self.state.memory.write_halfword(
                             address_counter,
-                            fixedint.UInt16(int(val, base=0)),
+                            fixedint.UInt16(self._to_int(val, line_number, line)),
                             directly_write_to_lower_memory=True,
                         )
                         address_counter += 2
@@ -408,7 +408,7 @@ class RiscvParser(Parser):
                     for val in line_parsed.get("values"):
                         self.state.memory.write_word(
                             address_counter,
-                            fixedint.UInt32(int(val, base=0)),
+                            fixedint.UInt32(self._to_int(val, line_number, line)),
                             directly_write_to_lower_memory=True,
                         )
                         address_counter += 4
@@ -432,7 +432,9 @@ class RiscvParser(Parser):
                     )
                     address_counter += 1
                 elif line_parsed.type.type == "zero":
-                    num_words = int(line_parsed.get("value"))
+                    num_words = self._to_int(
+                        line_parsed.get("value"), line_number, line, base=10
+                    )
                     # .zero reserves num_words words, so the elements are 4 bytes wide
                     self.variables.update({line_parsed.get("name"): (address_counter, 4)})
                     address_counter += 4 * num_words
@@ -459,7 +461,7 @@ class RiscvParser(Parser):
                         if type(line_parsed.rd[0]) == str
                         else "x" + line_parsed.rd[0][1]
                     )
-                    imm = int(line_parsed.imm, base=0)
+                    imm = self._to_int(line_parsed.imm, line_number, line)
                     lui_imm = int(fixedint.UInt32(imm)) >> 12
                     # get the 12 first bits
                     addi_imm = int(fixedint.UInt32(imm)) & 0xFFF
@@ -512,7 +514,9 @@ class RiscvParser(Parser):
                         )
                         # determine array index (size*index)
                         array_index = (self.variables[line_parsed.variable.name][1]) * (
-                            int(line_parsed.variable.index)
+                            self._to_int(
+                                line_parsed.variable.index, line_number, line, base=10
+                            )
                             if line_parsed.variable.index
                             else 0
                         )
@@ -576,7 +580,9 @@ class RiscvParser(Parser):
                     )
                     # determine array index (size*index)
                     array_index = (self.variables[line_parsed.variable.name][1]) * (
-                        int(line_parsed.variable.index)
+                        self._to_int(
+                            line_parsed.variable.index, line_number, line, base=10
+                        )
                         if line_parsed.variable.index
                         else 0
                     )
@@ -700,7 +706,7 @@ class RiscvParser(Parser):
             elif issubclass(instruction_class, instruction_types.ITypeInstruction):
                 instructions.append(
                     instruction_class(
-                        imm=int(line_parsed.imm, base=0),
+                        imm=self._to_int(line_parsed.imm, line_number, line),
                         # note: since I/S/B-Types use the same patterns but have different names for the registers (rs1,rs2 vs. rd,rs1),
                         # we instead use reg1 and reg2 as names
                         rs1=self._convert_register_name(line_parsed.reg2),
@@ -712,7 +718,7 @@ class RiscvParser(Parser):
                     instruction_class(
                         rs1=self._convert_register_name(line_parsed.reg2),
                         rs2=self._convert_register_name(line_parsed.reg1),
-                        imm=int(line_parsed.imm, base=0),
+                        imm=self._to_int(line_parsed.imm, line_number, line),
                     )
                 )
             elif issubclass(instruction_class, instruction_types.BTypeInstruction):
@@ -736,7 +742,7 @@ class RiscvParser(Parser):
                 instructions.append(
                     instruction_class(
                         rd=self._convert_register_name(line_parsed.rd),
-                        imm=int(line_parsed.imm, base=0),
+                        imm=self._to_int(line_parsed.imm, line_number, line),
                     )
                 )
             elif issubclass(instruction_class, instruction_types.JTypeInstruction):
@@ -762,7 +768,7 @@ class RiscvParser(Parser):
                 instructions.append(
                     instruction_class(
                         rd=self._convert_register_name(line_parsed.rd),
-                        csr=int(line_parsed.csr, base=0),
+                        csr=self._to_int(line_parsed.csr, line_number, line),
                         rs1=self._convert_register_name(line_parsed.rs1),
                     )
                 )
@@ -771,8 +777,8 @@ class RiscvParser(Parser):
                 instructions.append(
                     instruction_class(
                         rd=self._convert_register_name(line_parsed.rd),
-                        csr=int(line_parsed.csr, base=0),
-                        uimm=int(line_parsed.uimm, base=0),
+                        csr=self._to_int(line_parsed.csr, line_number, line),
+                        uimm=self._to_int(line_parsed.uimm, line_number, line),
                     )
                 )
             elif issubclass(instruction_class, instruction_types.FenceTypeInstruction):
@@ -793,7 +799,7 @@ class RiscvParser(Parser):
         # Checks if a imm or label was given
         # returns the integer value used in the construction of the instruction
         if instruction_parsed.get("imm"):
-            imm_value = int(instruction_parsed.imm, base=0)
+            imm_value = self._to_int(instruction_parsed.imm, line_number, line)
             if imm_value % 2:
                 raise ParserOddImmediateException(line_number=line_number, line=line)
             else:
@@ -801,7 +807,7 @@ class RiscvParser(Parser):
         else:
             offset = 0
             if instruction_parsed.offset:
-                offset = int(instruction_parsed.offset, base=0)
+                offset = self._to_int(instruction_parsed.offset, line_number, line)
             try:
                 return labels[instruction_parsed.label] + offset - address_count
             except KeyError:
